@@ -277,6 +277,21 @@ pub fn run_history(out: &mut Out, rng: &mut Rng, h: &History) {
         let quote = if let Op::Swap { i, j, x, .. } = &op { Some(w.simulate(*i, *j, *x)) } else { None };
         let r = exec(&mut w, &op);
         let after = snap(&w);
+        // C15 on the 3pool (no belief price in this stream): accepted <=> floor(spread*1e18/(gross+spread)) <= min(max_spread or 1%, 50%)
+        if let (Some(Ok(sim)), Op::Swap { ms, .. }) = (&quote, &op) {
+            let gross = sim.return_amount.u128() + sim.swap_fee_amount.u128() + sim.protocol_fee_amount.u128() + sim.burn_fee_amount.u128();
+            let sp = sim.spread_amount.u128();
+            if gross + sp > 0 {
+                out.monitor_evals += 1;
+                let s_eff = ms.unwrap_or(DEC / 100).min(DEC / 2);
+                let ratio = cosmwasm_std::Uint256::from(sp) * cosmwasm_std::Uint256::from(DEC) / cosmwasm_std::Uint256::from(gross + sp);
+                let within = ratio <= cosmwasm_std::Uint256::from(s_eff);
+                match &r {
+                    Ok(_) => if !within { out.monitor_fail("C15", "3pool swap succeeded with spread/(return+spread) above the max spread", replay.clone()); },
+                    Err(e) => if within && fail_class(e) == Some(E_SLIPPAGE) { out.monitor_fail("C15", "3pool swap within the max spread was rejected for slippage", replay.clone()); },
+                }
+            }
+        }
         if let (Some(q), Ok(_), Op::Swap { u, j, .. }) = (&quote, &r, &op) {
             out.monitor_evals += 1;
             let got = after.user[*u][*j] - before.user[*u][*j];
